@@ -189,7 +189,7 @@ func genericResolver(fieldName string) func(graphql.FieldContext) (interface{}, 
 		if !ok {
 			return nil, nil
 		}
-		return o.GoValue()
+		return o.Resolve(ctx.Context)
 	}
 }
 
